@@ -136,7 +136,8 @@ class HomogenizationModel(DiffusionModel):
         '''
         vfluxes = self._getFluxes(self.t, [self.x])
         dJ = np.abs(vfluxes[:,1:] - vfluxes[:,:-1]) / self.dz
-        dt = self.constraints.maxCompositionChange / np.amax(dJ[dJ!=0])
+        #No limit on the time interval if nothing changes (ex. a uniform profile)
+        dt = self.constraints.maxCompositionChange / np.amax(dJ[dJ!=0]) if np.any(dJ!=0) else np.inf
         return vfluxes, dt
     
     def getDt(self, dXdt):
@@ -145,4 +146,8 @@ class HomogenizationModel(DiffusionModel):
         This is done by finding the time interval such that the composition
             change caused by the fluxes will be lower than self.maxCompositionChange
         '''
-        return self.constraints.maxCompositionChange / np.amax(np.abs(dXdt[0][dXdt[0]!=0]))
+        nonzero = dXdt[0][dXdt[0]!=0]
+        #Nothing changes (ex. a uniform profile), so there is no limit from the composition change
+        if len(nonzero) == 0:
+            return np.inf
+        return self.constraints.maxCompositionChange / np.amax(np.abs(nonzero))
